@@ -83,7 +83,7 @@ func genSuffixText(t *rapid.T, maxLen int) (text []byte, family string) {
 	if n > maxLen {
 		n = maxLen
 	}
-	fam := weighted(t, "family", 3, 2, 2, 2, 2, 3, 3, 3, 3, 3, 3)
+	fam := weighted(t, "family", 3, 2, 2, 2, 2, 3, 3, 3, 3, 3, 3, 4)
 	var out []byte
 	switch fam {
 	case 0:
@@ -180,6 +180,56 @@ func genSuffixText(t *rapid.T, maxLen int) (text []byte, family string) {
 		for m := 0; m < nm && n > 0; m++ {
 			out[rapid.IntRange(0, n-1).Draw(t, "mutAt")] ^= 1
 		}
+	case 11:
+		// A block of many distinct units, each starting a B* suffix, repeated
+		// 2..4 times (optionally with a small gap or a point mutation): the
+		// rank groups {copy 1, copy 2, ...} can only be separated at the end
+		// of the block, which needs many refinement levels and exhausts the
+		// budget of the rank sort on a few hundred bytes.
+		family = "repeated block of distinct units"
+		copies := rapid.IntRange(2, 4).Draw(t, "copies")
+		ulen := rapid.IntRange(2, 4).Draw(t, "unitLen")
+		k := n / (copies * ulen)
+		if k < 1 {
+			k = 1
+		}
+		if k > 250 && ulen < 4 {
+			k = 250
+		}
+		order := rapid.IntRange(0, 2).Draw(t, "order") // rising, falling, shuffled
+		hi := rapid.SampledFrom([]byte{0xff, 0xfe, 'z'}).Draw(t, "hi")
+		lo := rapid.SampledFrom([]byte{0x00, 0x01, 'a'}).Draw(t, "lo")
+		ids := make([]int, k)
+		for i := range ids {
+			switch order {
+			case 0:
+				ids[i] = i
+			case 1:
+				ids[i] = k - 1 - i
+			default:
+				ids[i] = (i*7919 + 13) % k
+			}
+		}
+		var x []byte
+		for _, id := range ids {
+			switch ulen {
+			case 2:
+				x = append(x, byte(1+id%250), hi)
+			case 3:
+				x = append(x, byte(1+id%250), hi, lo)
+			default:
+				x = append(x, byte(1+id%250), byte(1+id/250), hi, lo)
+			}
+		}
+		for c := 0; c < copies; c++ {
+			out = append(out, x...)
+			if c+1 < copies && rapid.IntRange(0, 3).Draw(t, "gap") == 0 {
+				out = append(out, byte(rapid.IntRange(0, 255).Draw(t, "gapByte")))
+			}
+		}
+		if rapid.IntRange(0, 3).Draw(t, "mutate") == 0 && len(out) > 0 {
+			out[rapid.IntRange(0, len(out)-1).Draw(t, "mutAt")] ^= 1
+		}
 	default:
 		family = "lz-copy"
 		out = genText(t, "lz", maxInt(n, 1))
@@ -189,7 +239,7 @@ func genSuffixText(t *rapid.T, maxLen int) (text []byte, family string) {
 	}
 	// relabel: map the small symbols to arbitrary byte values so that all 256
 	// values and both orders occur.
-	if fam != 10 && rapid.Bool().Draw(t, "relabel") {
+	if fam < 10 && rapid.Bool().Draw(t, "relabel") {
 		var m [256]byte
 		for i := range m {
 			m[i] = byte(i)
